@@ -209,3 +209,10 @@ def negative_controls(w, fam, obs, rej, seed, n=40):
     if nrej & {o["id"] for o in sample[:5]}:
         raise Broken("negative control: intact runs rejected")
     return len(bad)
+
+
+def tree_changed(o):
+    """Did the run change the destination (any aspect of any path)?"""
+    a = {n["p"]: (n["t"], n.get("c"), n.get("sz"), n.get("tgt"), n.get("perm"), n.get("mt") if n["t"] == "reg" else None) for n in o["dst"]}
+    b = {n["p"]: (n["t"], n.get("c"), n.get("sz"), n.get("tgt"), n.get("perm"), n.get("mt") if n["t"] == "reg" else None) for n in o["final"]}
+    return a != b or bool(o.get("extra"))
